@@ -40,7 +40,7 @@ func startProbe(bin string) (*probeProc, error) {
 	return &probeProc{cmd: cmd, in: in, out: bufio.NewReaderSize(out, 1<<16)}, nil
 }
 
-// ask sends one line; "crash" if the process died or did not answer within 30 s.
+// ask sends one line; "crash" if the process died or did not answer within 120 s.
 func (p *probeProc) ask(line string) string {
 	if _, err := io.WriteString(p.in, line+"\n"); err != nil {
 		return "crash"
@@ -57,7 +57,7 @@ func (p *probeProc) ask(line string) string {
 	select {
 	case s := <-ch:
 		return s
-	case <-time.After(30 * time.Second):
+	case <-time.After(120 * time.Second):
 		p.cmd.Process.Kill()
 		return "crash"
 	}
@@ -466,6 +466,102 @@ func probeHistory(rng *hlib.Rand, p *probeProc, probe *pkgData, idx int) *histOu
 	return h
 }
 
+// probeSweep: every opcode of the interpreter (alone, and after a byte was read and one written)
+// against every combination of buffer shapes: ordinary, empty, data.ptr == NULL, closed, full/exhausted.
+// One fresh object per case; exact prediction by the `vm` op, contract checks and crash detection as
+// in the random histories.
+func probeSweep(p *probeProc, probe *pkgData) []*histOut {
+	ms := probe.methods
+	vmIdx := -1
+	for j, x := range ms {
+		if x.Name == "vm" {
+			vmIdx = j
+		}
+	}
+	if vmIdx < 0 {
+		return nil
+	}
+	type bufCase struct {
+		mode           int
+		hex            string
+		ri, wi, closed int
+	}
+	srcs := []bufCase{{1, "0102030405", 1, 4, 0}, {1, "0102030405", 1, 4, 1}, {1, "0102", 2, 2, 0}, {1, "-", 0, 0, 1}, {2, "-", 0, 0, 0}}
+	dsts := []bufCase{{1, "a0a1a2a3a4a5a6", 0, 3, 0}, {1, "a0a1a2a3a4a5a6", 2, 3, 1}, {1, "a0a1", 1, 2, 0}, {1, "-", 0, 0, 0}, {2, "-", 0, 0, 0}}
+	var outs []*histOut
+	idx := 0
+	for op := 0; op <= 17; op++ {
+		for _, prefix := range []string{"", "0407"} {
+			for _, sc := range srcs {
+				for _, dc := range dsts {
+					h := &histOut{counts: map[string]int{}}
+					outs = append(outs, h)
+					idx++
+					ans := p.ask("new 0")
+					var sizeof int
+					if _, err := fmt.Sscanf(ans, "ok %d", &sizeof); err != nil {
+						h.op(fmt.Sprintf("reset 0 0 0 0 %s", methodDescs(ms)), "harness-error:"+ans)
+						return outs
+					}
+					h.op(fmt.Sprintf("reset 0 %d 0 0 %s", sizeof, methodDescs(ms)), "ok")
+					replay := []string{fmt.Sprintf("probe sweep case %d: new 0", idx)}
+					ask := func(cmd string) string { replay = append(replay, cmd); return p.ask(cmd) }
+					ini := fmt.Sprintf("init 0 %d 0 0", sizeof)
+					f := strings.Fields(ask(ini))
+					if len(f) != 3 {
+						h.op(ini, "harness-error:init")
+						continue
+					}
+					h.op(ini, fmt.Sprintf("%s %s %s", f[0], magicClass(f[1]), f[2]))
+					ask(fmt.Sprintf("src %d %s %d %d %d", sc.mode, sc.hex, sc.ri, sc.wi, sc.closed))
+					ask(fmt.Sprintf("dst %d %s %d %d %d", dc.mode, dc.hex, dc.ri, dc.wi, dc.closed))
+					prog := fmt.Sprintf("%s%02x00", prefix, op)
+					cmd := fmt.Sprintf("call vm 0 0 1 %s", prog)
+					ans = ask(cmd)
+					f = strings.Fields(ans)
+					srcDesc := fmt.Sprintf("%d,%s,%d,%d,%d", sc.mode, sc.hex, sc.ri, sc.wi, sc.closed)
+					dstDesc := fmt.Sprintf("%d,%s,%d,%d,%d", dc.mode, dc.hex, dc.ri, dc.wi, dc.closed)
+					opline := fmt.Sprintf("vm %d 0 %s %s %s", vmIdx, srcDesc, dstDesc, prog)
+					if len(f) < 7 {
+						h.op(opline, "harness-error:"+ans)
+						h.fails = append(h.fails, hlib.Failure{Key: "crash:probe:vm", Desc: "the probe driver died (sanitizer abort / signal) in " + cmd, Replay: strings.Join(replay, "\n")})
+						p.close()
+						np, err := startProbe(p.cmd.Path)
+						if err != nil {
+							return outs
+						}
+						*p = *np
+						continue
+					}
+					var pcs, ps, scr string
+					for _, fld := range f[5:] {
+						switch {
+						case strings.HasPrefix(fld, "pc="):
+							pcs = fld
+						case strings.HasPrefix(fld, "p="):
+							ps = fld
+						case strings.HasPrefix(fld, "scratch="):
+							scr = fld
+						case strings.HasPrefix(fld, "checks=") && fld != "checks=ok":
+							for _, nm := range strings.Split(fld[7:], ",") {
+								h.fails = append(h.fails, hlib.Failure{Key: "iocontract:probe:vm:" + nm, Desc: "I/O buffer contract broken after " + cmd + ": " + ans, Replay: strings.Join(replay, "\n")})
+							}
+						}
+					}
+					if ps != "p=3" && ps != "p=4" {
+						scr = "scratch=0"
+					}
+					h.op(opline, fmt.Sprintf("%s %s %s %s %s %s %s %s", f[0], magicClass(f[1]), f[2], f[3], f[4], pcs, ps, scr))
+					h.count("probe:sweep:" + shortStatus(f[0]))
+					h.sig = fmt.Sprintf("sweep|%s|%s|%s|%s", prog, srcDesc, dstDesc, f[0])
+					h.nontriv = f[0] != "ok"
+				}
+			}
+		}
+	}
+	return outs
+}
+
 func shortStatus(s string) string {
 	switch {
 	case s == "ok" || s == "v" || s == "z" || s == "-":
@@ -487,11 +583,19 @@ func runProbeHistories(r *hlib.Run, probe *pkgData, snapshot, work string) {
 		r.Note("probe driver: " + err.Error())
 		return
 	}
+	// deterministic sweep first (it contains the minimised past failures, corpus/C08)
+	if p, err := startProbe(bin); err == nil {
+		emit(r, probeSweep(p, probe), "probe-sweep")
+		p.close()
+	}
 	total := 1500
 	if r.Thorough {
 		total = 40000
 	}
 	workers := 8
+	if r.Thorough {
+		workers = 14
+	}
 	seeds := make([]*hlib.Rand, total)
 	for i := range seeds {
 		seeds[i] = r.Rand.Fork()
@@ -520,8 +624,84 @@ func runProbeHistories(r *hlib.Run, probe *pkgData, snapshot, work string) {
 		}(w)
 	}
 	wg.Wait()
+	// shrink the replay of the first few failures the C side detects (contract checks, crashes)
+	shrunk := 0
+	for _, h := range outs {
+		if h == nil {
+			continue
+		}
+		for i := range h.fails {
+			f := &h.fails[i]
+			if shrunk < 5 && (strings.HasPrefix(f.Key, "iocontract:probe:") || strings.HasPrefix(f.Key, "crash:probe:")) {
+				f.Replay = shrinkProbeReplay(bin, f.Key, f.Replay)
+				shrunk++
+			}
+		}
+	}
 	emit(r, outs, "probe")
 }
+
+// probeReplayFails re-runs raw driver commands and says whether the failure with this key shows again
+// (a crash, or the named contract check in the answer to the last command).
+func probeReplayFails(bin, key string, cmds []string) bool {
+	p, err := startProbe(bin)
+	if err != nil {
+		return false
+	}
+	defer p.close()
+	last := ""
+	for _, c := range cmds {
+		last = p.ask(c)
+		if last == "crash" {
+			return strings.HasPrefix(key, "crash:")
+		}
+	}
+	if strings.HasPrefix(key, "crash:") {
+		return false
+	}
+	name := key[strings.LastIndexByte(key, ':')+1:]
+	for _, fld := range strings.Fields(last) {
+		if strings.HasPrefix(fld, "checks=") {
+			for _, nm := range strings.Split(fld[7:], ",") {
+				if nm == name {
+					return true
+				}
+			}
+		}
+	}
+	return false
+}
+
+// shrinkProbeReplay drops commands (greedily, to a fixpoint) while the failure stays.
+func shrinkProbeReplay(bin, key, replay string) string {
+	lines := strings.Split(replay, "\n")
+	if len(lines) < 3 {
+		return replay
+	}
+	head := lines[0]
+	cmds := lines[1:]
+	first := "new 0"
+	if i := strings.LastIndex(head, ": "); i >= 0 {
+		first = head[i+2:]
+	}
+	all := append([]string{first}, cmds...)
+	if !probeReplayFails(bin, key, all) {
+		return replay
+	}
+	for changed := true; changed; {
+		changed = false
+		for i := len(all) - 2; i >= 1; i-- { // keep `new …` and the failing last command
+			cand := append(append([]string{}, all[:i]...), all[i+1:]...)
+			if probeReplayFails(bin, key, cand) {
+				all = cand
+				changed = true
+			}
+		}
+	}
+	return head + " (shrunk to " + fmt.Sprint(len(all)) + " driver commands)\n" + strings.Join(all[1:], "\n")
+}
+
+var failsPerKey = map[string]int{}
 
 func emit(r *hlib.Run, outs []*histOut, what string) {
 	for _, h := range outs {
@@ -536,7 +716,13 @@ func emit(r *hlib.Run, outs []*histOut, what string) {
 			r.CountN(k, v)
 		}
 		for _, f := range h.fails {
-			r.Fail(f.Key, f.Desc, f.Replay)
+			// hlib keeps the first 200 failures of a run: no key may crowd the others out
+			failsPerKey[f.Key]++
+			if failsPerKey[f.Key] <= 5 {
+				r.Fail(f.Key, f.Desc, f.Replay)
+			} else {
+				r.Count("oracle-failure-not-listed-again:" + f.Key)
+			}
 		}
 		r.Count(what + ":histories")
 		if h.nontriv && h.sig != "" {
